@@ -33,6 +33,37 @@ def generate(g):
        or not re.search(r"pub fn from_value<T: DeserializeOwned>\(value: Value\) -> T \{\s*serde_json::from_value\(value\)\.unwrap\(\)", ms):
         g.untranslated.append("macro_support::try_load_current_span / from_value left the recognised shape (missing -> None, ill-typed -> unwrap panic)"); return None
 
+    # --- the repo's own loggers: where does the fallible work of a storage happen? -------------------------------
+    hs = Q.strip_comments(open(os.path.join(repo, "qevent/src/telemetry/handy.rs")).read())
+    storages = []
+    for sm in re.finditer(r"impl\s+TelemetryStorage\s+for\s+([\w:]+)\s*\{", hs):
+        ib = hs[sm.end() - 1:Q.balanced(hs, sm.end() - 1, "{", "}")]
+        jm = re.search(r"fn\s+join\s*\(", ib)
+        if not jm:
+            g.untranslated.append(f"impl TelemetryStorage for {sm.group(1)}: fn join not found"); return None
+        bstart = ib.index("{", ib.index("->", jm.end()))
+        # the return type contains no `{`; body of join:
+        body_j = ib[bstart:Q.balanced(ib, bstart, "{", "}")]
+        am = re.search(r"async\s+move\s*\{", body_j)
+        if not am:
+            g.untranslated.append(f"impl TelemetryStorage for {sm.group(1)}: join does not end in an `async move` block"); return None
+        aend = Q.balanced(body_j, am.end() - 1, "{", "}")
+        outside = body_j[1:am.start()] + body_j[aend:-1]
+        if outside[len(body_j[1:am.start()]):].strip():
+            g.untranslated.append(f"impl TelemetryStorage for {sm.group(1)}: code after the `async move` block"); return None
+        eager = bool(re.search(r"panic!|\.unwrap\(|\.expect\(|unwrap_or_else|\?\s*;|unreachable!|assert", outside))
+        storages.append((sm.group(1), eager))
+    nt = re.search(r"impl<S: TelemetryStorage> QLog for LegacySeqLogger<S> \{\s*fn new_trace\(&self, vantage_point: VantagePointType, group_id: GroupID\) -> Span \{", hs)
+    if not nt:
+        g.untranslated.append("LegacySeqLogger::new_trace left the recognised shape"); return None
+    ntb = hs[nt.end() - 1:Q.balanced(hs, nt.end() - 1, "{", "}")]
+    sp = re.search(r"tokio::spawn\(async move \{", ntb)
+    awaited_in_task = bool(sp) and bool(re.search(r"let file = self\.storage\.join\(&file_name\);", ntb[:sp.start()])) \
+        and "file.await" in ntb[sp.end():Q.balanced(ntb, sp.end() - 1, "{", "}")] and ".await" not in ntb[:sp.start()]
+    caller_part = ntb[:sp.start()] + ntb[Q.balanced(ntb, sp.end() - 1, "{", "}"):] if sp else ntb
+    caller_fallible = bool(re.search(r"panic!|\.unwrap\(|\.expect\(|unwrap_or_else|unreachable!", caller_part))
+    send_ignored = bool(re.search(r"impl ExportEvent for mpsc::UnboundedSender<Event> \{\s*fn emit\(&self, event: Event\) \{\s*_ = self\.send\(event\);\s*\}", hs))
+
     span_sites, span_unc, event_sites = [], [], []
     files = []
     for crate in sorted(os.listdir(repo)):
@@ -99,6 +130,13 @@ def generate(g):
     lines.insert(3, "open GmQuic.Model.Json GmQuic.Gen.QEvent")
     lines.append("/-- qevent/src/telemetry/macros.rs `event!`: `@load_known` — span fields every event site reads (missing: skipped; present but not deserialisable: `unwrap` panics) -/")
     lines.append("def knownLoads : List (String × Schema) := [" + ", ".join(f"({lstr(n)}, T_{t})" for n, t in loads) + "]")
+    lines.append("")
+    lines.append("/-- qevent/src/telemetry/handy.rs: every `impl TelemetryStorage for T`: does `join` do fallible work (panic!/unwrap/expect/?) OUTSIDE the future it returns, i.e. on the stack of `new_trace`'s caller? -/")
+    lines.append("def storageJoinEager : List (String × Bool) := [" + ", ".join(f"({lstr(n)}, {'true' if e else 'false'})" for n, e in storages) + "]")
+    lines.append("/-- `LegacySeqLogger::new_trace`: the storage future is only awaited inside the writer task it spawns; no panicking call on the caller's side; `UnboundedSender::emit` ignores the send error of a closed channel -/")
+    lines.append(f"def seqLoggerAwaitsInTask : Bool := {'true' if awaited_in_task else 'false'}")
+    lines.append(f"def seqLoggerCallerFallible : Bool := {'true' if caller_fallible else 'false'}")
+    lines.append(f"def senderEmitIgnoresClosedChannel : Bool := {'true' if send_ignored else 'false'}")
     lines.append("")
     lines.append("/-- (site, root|current, fields added with the JSON kind of the value) -/")
     lines.append("def spanSites : List (String × String × List (String × String)) := [")
